@@ -6,6 +6,7 @@ package main
 
 import (
 	"fmt"
+	"go/token"
 	"go/types"
 	"sort"
 	"strings"
@@ -30,11 +31,13 @@ type structOffender struct {
 }
 
 // spec syntax:
-//   writers:<pkgname>.<Type>.<field>=<funcKey>,<funcKey>,…
-//   callswith:<funcKey>=<pkgpath>.<Func>(<Type>.<field>)   (the function or one of its closures calls Func with a slice of that field of a heap object)
-//   allpaths:<funcKey>=close(<field>)|go(<method name>)|…   (every path from entry to a return passes one of these)
-//   nocall:<funcKey-prefix-list>-><funcKey-prefix-list>
-//   nodirectcall:<funcKey-list>-><funcKey-list>   (calls in the bodies of the first list only)
+//
+//	writers:<pkgname>.<Type>.<field>=<funcKey>,<funcKey>,…
+//	nonblocking:<funcKey>,<funcKey>,…   (no blocking channel operation in the bodies: every select has a default, no bare send / receive)
+//	callswith:<funcKey>=<pkgpath>.<Func>(<Type>.<field>)   (the function or one of its closures calls Func with a slice of that field of a heap object)
+//	allpaths:<funcKey>=close(<field>)|go(<method name>)|…   (every path from entry to a return passes one of these)
+//	nocall:<funcKey-prefix-list>-><funcKey-prefix-list>
+//	nodirectcall:<funcKey-list>-><funcKey-list>   (calls in the bodies of the first list only)
 func (eng *Engine) structuralObligations(pc *PropConfig) []structObl {
 	var out []structObl
 	{
@@ -59,6 +62,8 @@ func (eng *Engine) structuralObligations(pc *PropConfig) []structObl {
 			out = append(out, eng.writersObl(strings.TrimPrefix(s, "writers:"), false))
 		case strings.HasPrefix(s, "mapwriters:"):
 			out = append(out, eng.mapWritersObl(strings.TrimPrefix(s, "mapwriters:")))
+		case strings.HasPrefix(s, "nonblocking:"):
+			out = append(out, eng.nonBlockingObl(strings.TrimPrefix(s, "nonblocking:")))
 		case strings.HasPrefix(s, "callswith:"):
 			out = append(out, eng.callsWithObl(strings.TrimPrefix(s, "callswith:")))
 		case strings.HasPrefix(s, "allpaths:"):
@@ -582,4 +587,39 @@ func (eng *Engine) callsWithObl(spec string) structObl {
 		}
 	}
 	return structObl{Name: name, OK: false, Detail: "no call of " + callee + " with a slice of " + field + " of a heap object in " + parts[0] + " or its closures"}
+}
+
+// nonblocking:<funcKey>,… : the bodies of these functions contain no channel operation that can block: every select
+// statement has a default case, and there is no send or receive outside a select.  (Calls are not followed; locks are
+// not channel operations.)  Used for the functions the muxer's single receive goroutine runs for every frame.
+func (eng *Engine) nonBlockingObl(spec string) structObl {
+	name := "nonblocking:" + spec
+	var bad []string
+	for _, k := range strings.Split(spec, ",") {
+		k = strings.TrimSpace(k)
+		fn := eng.FuncByKey(k)
+		if fn == nil {
+			return structObl{Name: name, OK: false, Detail: "contract-target-missing: " + k}
+		}
+		for _, b := range fn.Blocks {
+			for _, ins := range b.Instrs {
+				switch x := ins.(type) {
+				case *ssa.Select:
+					if x.Blocking {
+						bad = append(bad, k+": select without default at "+eng.prog.Fset.Position(x.Pos()).String())
+					}
+				case *ssa.Send:
+					bad = append(bad, k+": channel send at "+eng.prog.Fset.Position(x.Pos()).String())
+				case *ssa.UnOp:
+					if x.Op == token.ARROW {
+						bad = append(bad, k+": channel receive at "+eng.prog.Fset.Position(x.Pos()).String())
+					}
+				}
+			}
+		}
+	}
+	if len(bad) > 0 {
+		return structObl{Name: name, OK: false, Detail: strings.Join(bad, "; ")}
+	}
+	return structObl{Name: name, OK: true}
 }
